@@ -185,9 +185,11 @@ def st_tree(be, N, depth):
     leaf = st.one_of(*leafs)
 
     def ext(ch):
+        # scalars: dyadic, the four powers of i, and numbers of modulus exactly 1 that are not powers of i
+        unit = st.sampled_from([[1.0, 0.0], [-1.0, 0.0], [0.0, 1.0], [0.0, -1.0], [0.6, 0.8], [-0.8, 0.6], [0.28, -0.96], [-0.6, -0.8], [0.8, -0.6]])
         ops = [st.fixed_dictionaries({'t': st.sampled_from(['add', 'sub', 'matmul', 'matmul']), 'a': ch, 'b': ch}),
-               st.fixed_dictionaries({'t': st.just('mul'), 'c': st.one_of(gen.st_coef(), st.sampled_from([[1.0, 0.0], [-1.0, 0.0], [0.0, 1.0], [0.0, -1.0]])), 'a': ch}),
-               st.fixed_dictionaries({'t': st.just('div'), 'a': ch, 'c': gen.st_coef(nonzero=True)}),
+               st.fixed_dictionaries({'t': st.just('mul'), 'c': st.one_of(gen.st_coef(), unit), 'a': ch}),
+               st.fixed_dictionaries({'t': st.just('div'), 'a': ch, 'c': st.one_of(gen.st_coef(nonzero=True), unit)}),
                st.fixed_dictionaries({'t': st.sampled_from(['neg', 'reduce']), 'a': ch})]
         ops.append(st.fixed_dictionaries({'t': st.sampled_from(['addnum', 'raddnum', 'subnum']), 'a': ch, 'c': gen.st_coef()}))
         return st.one_of(*ops)
@@ -296,7 +298,7 @@ FACETS = [
     Facet('np/reduce', f_reduce, strategy=lambda t: st_reduce('np', 3), examples={'quick': 1500, 'thorough': 60000}, shards={'quick': 1, 'thorough': 4}),
     Facet('np/trace', f_trace, strategy=lambda t: st_trace('np', 3, ['pauli', 'monomial', 'list', 'poly']), examples={'quick': 1500, 'thorough': 40000}, shards={'quick': 1, 'thorough': 4}),
     Facet('np/to_qutip', f_qutip, strategy=lambda t: st_trace('np', 3, ['pauli', 'monomial', 'list', 'poly']), examples={'quick': 500, 'thorough': 10000}),
-    Facet('torch/expression-trees', f_tree, strategy=lambda t: st_treecase('torch', 3), examples={'quick': 500, 'thorough': 20000}, shards={'quick': 2, 'thorough': 8}, backend='torch'),
+    Facet('torch/expression-trees', f_tree, strategy=lambda t: st_treecase('torch', 3), examples={'quick': 1500, 'thorough': 20000}, shards={'quick': 2, 'thorough': 8}, backend='torch'),
     Facet('torch/reduce', f_reduce, strategy=lambda t: st_reduce('torch', 3), examples={'quick': 300, 'thorough': 10000}, backend='torch'),
     Facet('torch/trace', f_trace, strategy=lambda t: st_trace('torch', 3, ['pauli', 'list', 'poly']), examples={'quick': 300, 'thorough': 10000}, backend='torch'),
 ]
